@@ -46,9 +46,10 @@ class _Clock:
 
 def case_st():
     return st.fixed_dictionaries({
-        "capacity": st.one_of(st.integers(1, 5), st.integers(1, 50)),
-        "rate": st.sampled_from(RATES),
-        "retry_after": st.sampled_from([30, 1, 600, 7]),
+        "capacity": st.one_of(st.integers(0, 5), st.integers(1, 50)),
+        "rate": st.sampled_from(RATES + ["0"]),
+        "retry_after": st.sampled_from([30, 1, 600, 7, 0]),
+        "via": st.sampled_from(["object", "object", "toml"]),
         "arrivals": st.lists(st.tuples(st.integers(0, len(DTS) - 1), st.sampled_from(["a", "a", "b", "c"]), st.integers(1, 3)),
                              min_size=1, max_size=200),
         "cleanup": st.sampled_from([True, True, True, False]),
@@ -72,11 +73,18 @@ def enum_small(tier):
 @st.composite
 def crowd_case(draw):
     """Many tracked addresses (around the clean-up's internal batch sizes) and arrivals exactly at clean-up ticks."""
-    n = draw(st.sampled_from([200, 255, 256, 257, 300, 520]))
+    n = draw(st.sampled_from([200, 255, 256, 257, 300, 520, 10050]))
     cap = draw(st.integers(1, 3))
+    victims = draw(st.lists(st.integers(0, n - 1), min_size=1, max_size=4, unique=True))
+    if n > 10000:
+        # the victims spend their allowance first, then > 10000 other addresses are seen, then the victims return
+        arrivals = [[("raw", 0), f"x{v}", 3] for v in victims] + [[("raw", 0), f"x{v}", 3] for v in victims]
+        arrivals += [[("raw", 0), f"y{i}", 1] for i in range(n)]
+        arrivals += [[("raw", 2), f"x{v}", 3] for v in victims]
+        return {"capacity": cap, "rate": "0.01", "retry_after": 30, "arrivals": arrivals, "cleanup": True, "vary_fp": False,
+                "via": "object"}
     arrivals = [[("raw", 0), f"x{i}", 1] for i in range(n)]
     tick = draw(st.sampled_from([900, 1200, 1500]))
-    victims = draw(st.lists(st.integers(0, n - 1), min_size=1, max_size=4, unique=True))
     # full buckets again by then (fast refill), idle > 600 s
     first = True
     for rep in range(draw(st.integers(1, 3))):
@@ -95,6 +103,32 @@ def _dt(x):
     return DTS[x]
 
 
+def _config_via_toml(case):
+    """The limits as an operator writes them: [rate_limit] in a TOML file -> ServerConfig.from_toml -> get_rate_limit_config()."""
+    import os
+    import shutil
+    from pathlib import Path
+
+    import tomli_w
+
+    from nauyaca.server.config import ServerConfig
+    from vlib import scratch
+
+    d = scratch.subdir("c10-toml")
+    try:
+        rate = float(case["rate"])
+        doc = {"server": {"host": "127.0.0.1", "port": 1965, "document_root": d},
+               "rate_limit": {"enabled": True, "capacity": case["capacity"],
+                              "refill_rate": int(rate) if rate == int(rate) and case["capacity"] % 2 else rate,
+                              "retry_after": case["retry_after"]}}
+        p = os.path.join(d, "c.toml")
+        with open(p, "wb") as f:
+            tomli_w.dump(doc, f)
+        return ServerConfig.from_toml(Path(p)).get_rate_limit_config()
+    finally:
+        shutil.rmtree(d, ignore_errors=True)
+
+
 def _dyadic(q: Fraction) -> bool:
     d = q.denominator
     return d & (d - 1) == 0 and d <= 2**20
@@ -109,8 +143,11 @@ def simulate(case, only_addr=None):
         old = mw.time
         mw.time = _Clock(loop)
         try:
-            rl = RateLimiter(RateLimitConfig(capacity=case["capacity"], refill_rate=float(case["rate"]),
-                                             retry_after=case["retry_after"]))
+            if case.get("via") == "toml":
+                rl = RateLimiter(_config_via_toml(case))
+            else:
+                rl = RateLimiter(RateLimitConfig(capacity=case["capacity"], refill_rate=float(case["rate"]),
+                                                 retry_after=case["retry_after"]))
             if case["cleanup"]:
                 rl.start()
             out = []
@@ -239,7 +276,7 @@ def _labels(case, v):
         out.append("grey-step")
     if any(b > 1 for _, _, b in case["arrivals"]):
         out.append("burst")
-    if case["capacity"] / float(case["rate"]) > 600:
+    if float(case["rate"]) == 0 or case["capacity"] / float(case["rate"]) > 600:
         out.append("slow-refill")
     return out
 
